@@ -215,5 +215,40 @@ line source|)
 }
 
 
+def _quoted_punct_seeds():
+    """Quoted symbols around every ASCII punctuation character: which of
+    them may lose their bars (SimplifyQuotedSymbols) is a lexical question."""
+    punct = "!$%&*+-./:<=>?@^_~,;'`[]{}()#\" "
+    out = {}
+    chunk = 8
+    for k in range(0, len(punct), chunk):
+        syms = ['|a%sb|' % c for c in punct[k:k + chunk]] + \
+               ['|%s|' % c for c in punct[k:k + chunk]]
+        text = '(set-logic QF_UF)\n' + ''.join(
+            f'(declare-const {s} Bool)\n' for s in syms)
+        text += '(assert (or %s))\n(check-sat)\n' % ' '.join(syms)
+        out['quoted_punct_%d' % (k // chunk)] = text
+    return out
+
+
+SEEDS.update(_quoted_punct_seeds())
+
+SEEDS['late_set_info'] = '''
+(set-info :smt-lib-version 2.6)
+(set-logic QF_BV)
+(declare-const v (_ BitVec 8))
+(declare-const w (_ BitVec 8))
+(declare-const s String)
+(declare-const t String)
+(assert (= (bvadd v w) (bvmul v #x02)))
+(assert (str.contains s t))
+(set-info :status sat)
+(check-sat)
+(assert (bvult (bvadd v w) w))
+(set-info :status unsat)
+(check-sat)
+'''
+
+
 def all_seeds():
     return [(k, v.lstrip('\n')) for k, v in sorted(SEEDS.items())]
